@@ -8,7 +8,7 @@
     body is the premise [prims_respect]; it is validated by the recording backend and the source scan
     on every run, not proved. *)
 From Coq Require Import List Arith ZArith NArith Bool String.
-From UV Require Import Model.Node Model.Gate Proofs.Gate Gen.Purity Proofs.GateTables.
+From UV Require Import Model.Node Model.Gate Proofs.Gate Proofs.GateSession Gen.Purity Proofs.GateTables.
 Import ListNotations.
 
 (** A tree the implementation judges pure emits no backend call at all when it is run: for every
@@ -118,6 +118,31 @@ Proof. exact labels_refuted_pre. Qed.
 Theorem C20_labels_repaired : forall op, In op label_exceptions_pre -> row_ok (op, effects op) = true.
 Proof. exact labels_repaired. Qed.
 
+(** A reused compiler keeps the embedder's pre-evaluation mode.  The fill arm compiles the filled
+    function in editor mode with in_fill set, try_ sets in_try; for every word without a code macro,
+    whatever fails inside it and however fill and try are nested, the whole saved state (mode, in_fill,
+    in_try, comptime_depth) is back after compiling it - on the Ok path and on the Err path. *)
+Theorem C20_compile_restores_state : forall fuel s w, no_macro w = true -> snd (ccompile true fuel s w) = s.
+Proof. exact compile_restores. Qed.
+Theorem C20_snippet_restores_state : forall fuel mode ws, forallb no_macro ws = true ->
+  clines (ccompile true fuel) (CS mode false false 0) ws = CS mode false false 0.
+Proof. exact snippet_restores. Qed.
+(** in_fill and in_try come back for every word, code macros included. *)
+Theorem C20_compile_restores_flags : forall fuel s w,
+  cs_in_fill (snd (ccompile true fuel s w)) = cs_in_fill s /\
+  cs_in_try (snd (ccompile true fuel s w)) = cs_in_try s.
+Proof. exact compile_restores_flags. Qed.
+(** Finding (code as it stands, confirmed on the implementation): an error inside the expansion of a
+    code macro leaves comptime_depth incremented. *)
+Theorem C20_codemacro_depth_leak_refuted : exists s w,
+  fst (ccompile true 200 s w) = false /\ cs_depth (snd (ccompile true 200 s w)) <> cs_depth s.
+Proof. exact codemacro_err_leaks_depth_refuted. Qed.
+(** Why the order "restore, then `?`" in the fill arm matters: with the `?` first, one rejected
+    snippet leaves the compiler in editor mode. *)
+Theorem C20_fill_without_restore_leaks_mode : exists s w, no_macro w = true /\
+  fst (ccompile false 200 s w) = false /\ cs_mode (snd (ccompile false 200 s w)) = Lsp /\ cs_mode s = Normal.
+Proof. exact unfixed_fill_leaks_mode. Qed.
+
 (** Non-vacuity: with concrete label-respecting semantics, a pure tree (a modifier running an
     operand twice around pure primitives, through a function call) is accepted and silent, while the
     same tree with a system function is refused and does emit. *)
@@ -144,3 +169,8 @@ Print Assumptions C20_safe_backend_denies.
 Print Assumptions C20_tables_consistent.
 Print Assumptions C20_labels_refuted_pre.
 Print Assumptions C20_labels_repaired.
+Print Assumptions C20_compile_restores_state.
+Print Assumptions C20_snippet_restores_state.
+Print Assumptions C20_compile_restores_flags.
+Print Assumptions C20_codemacro_depth_leak_refuted.
+Print Assumptions C20_fill_without_restore_leaks_mode.
